@@ -17,7 +17,8 @@ META = dict(
          "each tasker still queued gets exactly one ABORT; each such framer's open frames, and those of the auxiliaries its "
          "frames hold (done or not), are exited bottom-up before run() returns.",
     note="Single faults only (a second exception raised during the abort sweep itself is outside the statement and only "
-         "reported as an observation); all framers have period 0; the tasker whose own generator raised is exempt, as are slaves "
+         "reported as an observation); framers have period 0 except one family with a period of 4-8 ticks; the tasker whose own "
+         "generator raised is exempt, as are slaves "
          "and auxiliaries (never scheduled).",
 )
 import itertools
@@ -189,6 +190,24 @@ def flo_programs(tier):
         B = deep_framer("B", "active", 2)
         C = deep_framer("C", "active", 2)
         progs.append(("R5 bid stop C at tick %d, bid ready C at tick %d; end: bid stop B + bid stop me" % (j, j + 2), [A, C, B]))
+    # R6: framer W with a period of several ticks (waits between its turns), bid stop / abort / start by A
+    #     between two of W's turns; then every other tasker stops before W's next turn.  The run must go on
+    #     while W's *status* is started/running (whatever its desire) and end as soon as no status is
+    for pt in ((4, 8) if tier != "thorough" else (4, 6, 8)):
+        for j in ((1, 2) if tier != "thorough" else (1, 2, 3)):
+            for verb in ("stop", "abort", "start"):
+                sched = "inactive" if verb == "start" else "active"
+                A = ["framer A be active first a0"] + chain2("a", "atop", j + 2, {j: ["bid %s W" % verb]},
+                                                             end=("bid stop B", "bid stop me"))
+                B = deep_framer("B", "active", 2)
+                W = deep_framer("W", sched, 2)
+                W[0] += " at %r" % (pt * TICK)
+                if verb == "start":          # W does get started at its next turn if the run is still going: let it end then
+                    W = deep_framer("W", sched, 2, end_after=1)
+                    W[0] += " at %r" % (pt * TICK)
+                for a_first in (True, False):
+                    progs.append(("R6 W period %d ticks (%s); A: bid %s W at tick %d, then stop B + stop me; A %s"
+                                  % (pt, sched, verb, j, "before W" if a_first else "after W"), [A, B, W] if a_first else [W, B, A]))
     out = []
     for title, blocks in progs:
         text = "house h\n\n" + "\n\n".join("\n".join(b) for b in blocks) + "\n"
@@ -335,10 +354,13 @@ def run_case(prog, fault=None, interrupt_at=None, dispatch=None):
 # --------------------------------------------------------------------------- the statement as trace invariants
 
 def split(res, order):
-    """-> (ticks, sweep, scheduled_at_end, notes).  ticks: list of (k, stamp, pass sends).
-    The loop's end is located exactly: a pass sends one control to each queued tasker (all periods
-    are 0), so the pass of the last tick ends after as many sends as taskers were queued when it
-    began, or earlier at the send that raised, or at the interrupt marker."""
+    """-> (ticks, sweep, scheduled_at_end).  ticks: list of [k, stamp, pass sends, more, queued after, statuses].
+    The loop's end is located exactly: the pass of a tick sends one control to each queued tasker that is
+    due (due time = start time, advanced by the tasker's period at each of its runs - property C02; every
+    tick for period 0), so the pass of the last tick ends after as many sends as taskers were due when it
+    began, or earlier at the send that raised, or at the interrupt marker; what follows is the sweep.
+    `more` is the statement's `some tasker is started or running`: the STATUS each still queued tasker last
+    yielded (a tasker that is not due this tick keeps the status of its last run), not its desire."""
     ticks = []
     cut = None
     for e in res.trace:
@@ -351,15 +373,17 @@ def split(res, order):
             if not ticks:
                 ticks.append([-1, None, []])
             ticks[-1][2].append(e)
+    periods = getattr(res, "periods", {}) or {}
     queued = list(order)
+    start = ticks[0][1] if ticks and ticks[0][1] is not None else 0.0
+    due = {n: start for n in order}
+    status = {n: "stopped" for n in order}
     sweep = []
-    problems = []
     for idx, (k, stamp, sends) in enumerate(ticks):
         last = idx == len(ticks) - 1
-        n = len(queued)
-        npass = len(sends)
         if last:
-            npass = min(n, len(sends))
+            ndue = len([n for n in queued if stamp is None or due[n] <= stamp])
+            npass = min(ndue, len(sends))
             if cut is not None:
                 npass = min(npass, cut)
             for i, s in enumerate(sends[:npass]):
@@ -368,15 +392,18 @@ def split(res, order):
                     break
             sweep = sends[npass:]
             ticks[idx][2] = sends[:npass]
-        more = False
         for s in ticks[idx][2]:
             st = s["status"]
-            if s["name"] in queued and (st in ("aborted", "StopIteration") or str(st).startswith(("raised", "not-delivered"))):
-                queued.remove(s["name"])
-            if st in ("started", "running"):
-                more = True
+            n = s["name"]
+            status[n] = st
+            if n in due:
+                due[n] = due[n] + periods.get(n, 0.0)
+            if n in queued and (st in ("aborted", "StopIteration") or str(st).startswith(("raised", "not-delivered"))):
+                queued.remove(n)
+        more = any(status[n] in ("started", "running") for n in queued)
         ticks[idx].append(more)
         ticks[idx].append(list(queued))
+        ticks[idx].append([(n, status[n]) for n in queued])
     return ticks, sweep, queued
 
 
@@ -417,13 +444,13 @@ def judge(p, prog, res, order, framers, fault, interrupt_at, label):
             p.outcome("exception raised by an exit action during the final abort sweep: re-raised, rest of sweep skipped (second-order, observation)")
             return
     # (2) length of the run
-    for idx, (k, stamp, sends, more, left) in enumerate(ticks):
+    for idx, (k, stamp, sends, more, left, statuses) in enumerate(ticks):
         last = idx == len(ticks) - 1
         idle = (not more) or (not left)
         if not last and idle:
             p.violation("length|run-continued-after-idle-tick", example,
                         "tick %d had no tasker started or running (statuses %r, queued %r) but the run went on to tick %d"
-                        % (k, [(s["name"], s["status"]) for s in sends], left, k + 1), replay)
+                        % (k, statuses, left, k + 1), replay)
             return
         if last and fault is None and interrupt_at is None:
             if res.horizon_hit:
@@ -431,7 +458,8 @@ def judge(p, prog, res, order, framers, fault, interrupt_at, label):
                 return
             if not idle:
                 p.violation("length|run-ended-with-started-or-running-taskers", example,
-                            "run ended after tick %d although %r" % (k, [(s["name"], s["status"]) for s in sends]), replay)
+                            "run ended after tick %d although the scheduled taskers' statuses were %r (run in this tick: %r)"
+                            % (k, statuses, [s["name"] for s in sends]), replay)
                 return
     # (3) the sweep: exactly one ABORT to every tasker still queued, nothing else
     got = [s["name"] for s in sweep]
@@ -595,6 +623,8 @@ def run():
     ck.coverage_extra = dict(programs=len(progs), floscript_programs=sum(1 for x in progs if x[0] == "flo"),
                              handmade_houses=sum(1 for x in progs if x[0] == "hand"))
     ck.assumptions = [
+        "`no tasker is started or running` is evaluated on STATUS: the status every still scheduled tasker last yielded (a tasker "
+        "waiting for its period keeps the status of its last run), never on its desire",
         "`still scheduled` = in the skedder's ready queue when its loop ends: every scheduled tasker that has not yielded ABORTED, "
         "ended its generator, or raised; the tasker whose own generator raised is exempt, slaves and auxiliaries are never scheduled",
         "single fault per run; a KeyboardInterrupt or a second exception raised inside the final sweep itself is recorded as an "
